@@ -273,7 +273,9 @@ type raceReport struct {
 
 func parent(c Check, tier string, seed uint64, only string) int {
 	start := time.Now()
-	runDir := filepath.Join(verifDir(), "runs", c.Property, fmt.Sprintf("%d-%s", seed, tier))
+	// (VERIF_WORKSUFFIX is set by development tools that run several instances of one check at once
+	// against scratch worktrees; registered commands never set it)
+	runDir := filepath.Join(verifDir(), "runs", c.Property, fmt.Sprintf("%d-%s%s", seed, tier, os.Getenv("VERIF_WORKSUFFIX")))
 	os.RemoveAll(runDir)
 	os.MkdirAll(runDir, 0o755)
 
@@ -661,7 +663,13 @@ func finish(c Check, tier string, seed uint64, agg *aggregate, runDir string, st
 	}
 	os.MkdirAll(filepath.Join(verifDir(), "evidence"), 0o755)
 	b, _ := json.MarshalIndent(ev, "", " ")
-	os.WriteFile(filepath.Join(verifDir(), "evidence", c.Property+".json"), append(b, '\n'), 0o644)
+	evName := c.Property + ".json"
+	if sfx := os.Getenv("VERIF_WORKSUFFIX"); sfx != "" {
+		// a development run against a scratch worktree: keep it away from the real evidence file
+		evName = c.Property + ".dev" + sfx + ".json"
+		defer os.Remove(filepath.Join(verifDir(), "evidence", evName))
+	}
+	os.WriteFile(filepath.Join(verifDir(), "evidence", evName), append(b, '\n'), 0o644)
 
 	fmt.Printf("%s %s seed=%d: %d scenarios, %d distinct non-trivial, %d inconclusive, %d violations (%d keys), %d known-finding keys, %d race reports, %.1fs\n",
 		c.Property, tier, seed, evals, int64(len(distinct))+distinctExtra, inconcl, nviol, len(keys), len(kkeys), len(agg.races), time.Since(start).Seconds())
